@@ -15,6 +15,8 @@ import numpy as np
 from . import programs as P
 
 TEMPLATES = ("H1", "H2", "H3", "H4", "H5", "H6", "H7", "H8", "H9")
+# H10's loss depends on the pool parameter U (which the H6 heads list) but does NOT list it: U must not receive H10's gradient
+TEMPLATES_EXT = TEMPLATES + ("H10",)
 # parameters of each template: list of (name, shape spec) ; shape spec "x" = shape of the feature used
 PARAMS = {
     "H1": [("t", "x")],
@@ -25,6 +27,7 @@ PARAMS = {
     "H6": [("t", "x"), ("U", "pool")],
     "H7": [("t", "x")],
     "H8": [("t0", ())],
+    "H10": [("t", "x")],
     "H9": [("t", "x")],  # a loss that ignores the features altogether (regulariser-like): its Jacobian row is zero
 }
 
@@ -95,6 +98,9 @@ class MtlRef:
             L, dF[f], dp = x.sum() * t0 * t0, np.full_like(x, t0 * t0), {"t0": np.asarray(2 * t0 * x.sum())}
         elif tpl == "H9":
             L, dp = (p["t"] * p["t"]).sum(), {"t": 2 * p["t"]}
+        elif tpl == "H10":  # "U" is reported for the callers that default tasks_params (then U is discovered and listed)
+            U = float(self.pool_U)
+            L, dF[f], dp = (x * p["t"]).sum() * U, p["t"] * U, {"t": x * U, "U": np.asarray((x * p["t"]).sum())}
         else:
             raise KeyError(tpl)
         return float(L), dF, dp
@@ -149,6 +155,8 @@ def build_torch(desc, seed=0, dtype="float64"):
             L = x.sum() * p["t0"] * p["t0"]
         elif tpl == "H9":
             L = (p["t"] * p["t"]).sum()
+        elif tpl == "H10":
+            L = (x * p["t"]).sum() * U
         losses.append(L)
         tparams.append([p[n] for n, _ in PARAMS[tpl]])
         tnames.append([n for n, _ in PARAMS[tpl]])
